@@ -70,6 +70,11 @@ class C10Dst(DstWorld, LeakMixin):
              ("pdu", "FD", None, T(dst=(9, 2))), ("pdu", "MD", None, T(src=(8, 2))), ("pdu", "EOF", None, T(seq=(5, 2))),
              ("pdu", "FD", None, T(mode=other_mode)), ("pdu", "MD", None, T(mode=other_mode)), ("pdu", "EOF", None, T(mode=other_mode, size=size)),
              ("pdu", "ACKF", None, T(mode=other_mode)), ("pdu", "PROMPT", None, T(mode=other_mode))]
+        if cfg.get("variant") == "late":
+            # explored from a late state (see 'prefix'): retry procedures, duplicates and cancels around them
+            A = [("tick",), ("get",), ("expire",), ("advance",), ("cancel", "right"), ("ackfin",), ("md",),
+                 ("fd", 0, 2, 0), ("fd", 2, 2, 0), ("fd", size + 1, 1, 3), ("eof", size, "NO_ERROR", 1), ("eof", 2, "CANCEL_REQUEST_RECEIVED", 1),
+                 ("prompt",), ("pdu", "ACKF", None, T(mode=other_mode)), ("pdu", "EOF", None, T(seq=(5, 2)))]
         if cfg.get("variant") == "fd":
             # File Data at every offset / small length (retransmissions, overlaps, straddles), Metadata, EOF
             A = [("md",), ("tick",), ("get",), ("expire",), ("eof", size, "NO_ERROR", 1), ("eof", size - 1, "NO_ERROR", 1)]
@@ -78,13 +83,15 @@ class C10Dst(DstWorld, LeakMixin):
 
     def build(self):
         st = super().build()
+        for e in self.cfg.get("prefix", ()):  # reach a late state first (queue drained completely on the way)
+            DstWorld.apply(self, st, tuple(e))
         st.D.autodrain = False
         return st
 
     def enabled(self, st):
         evs = []
         for e in self.alphabet:
-            if e[0] == "expire":
+            if e[0] in ("expire", "advance"):
                 if clock.next_expiry(st.D.h) is not None:
                     evs.append(e)
             elif e[0] == "get":
@@ -137,17 +144,24 @@ class C10Src(SrcWorld, LeakMixin):
              ("pdu", "FIN", "R"), ("pdu", "NAK", "R"), ("pdu", "ACKE", "R"), ("pdu", "FD", "S"), ("pdu", "MD", "S"), ("pdu", "ACKF", "S"),
              ("pdu", "FIN", None, T(src=(9, 2))), ("pdu", "ACKE", None, T(dst=(8, 2))), ("pdu", "NAK", None, T(seq=(6, 2))),
              ("pdu", "FIN", None, T(mode=other_mode)), ("pdu", "NAK", None, T(mode=other_mode)), ("pdu", "KA", None, T(mode=other_mode))]
+        if cfg.get("variant") == "late":
+            A = [("tick",), ("get",), ("expire",), ("advance",), ("cancel", "right"), ("ackeof",), ("ackeof", "CANCEL_REQUEST_RECEIVED"),
+                 ("fin", "NO_ERROR", "DATA_COMPLETE", "FILE_RETAINED"), ("fin", "CANCEL_REQUEST_RECEIVED", "DATA_INCOMPLETE", "FILE_RETAINED"),
+                 ("nak", ((0, 0),)), ("nak", ((0, 2),)), ("nak", ((2, size),)), ("nak", ((0, size + 1),)), ("pdu", "KA", None), ("pdu", "ACKF", "S"),
+                 ("put", "valid")]
         self.alphabet = A
 
     def build(self):
         st = super().build()
+        for e in self.cfg.get("prefix", ()):
+            out = SrcWorld.apply(self, st, tuple(e))
         st.S.autodrain = False
         return st
 
     def enabled(self, st):
         evs = []
         for e in self.alphabet:
-            if e[0] == "expire":
+            if e[0] in ("expire", "advance"):
                 if clock.next_expiry(st.S.h) is not None:
                     evs.append(e)
             elif e[0] == "get":
@@ -198,14 +212,24 @@ def run(tier: str) -> int:
         worlds.append(C10Dst(mode=mode, nak=nak, closure=True, size=4, seg=2, ack_limit=2, nak_limit=2, check_limit=2))
     for nak in ("imm", "def"):
         worlds.append(C10Dst(mode="ack", nak=nak, closure=False, size=5, seg=2, ack_limit=2, nak_limit=2, variant="fd"))
+    # late states: receiver awaiting the ACK of its Finished PDU / awaiting missing data; sender awaiting the EOF ACK / the Finished PDU
+    fin_wait = [("md",), ("fd", 0, 2, 0), ("fd", 2, 2, 0), ("eof", 4, "NO_ERROR", 1), ("tick",), ("tick",)]
+    miss_wait = [("md",), ("fd", 2, 2, 0), ("eof", 4, "NO_ERROR", 1), ("tick",)]
+    for nak, prefix in (("imm", fin_wait), ("def", miss_wait), ("imm", miss_wait)):
+        worlds.append(C10Dst(mode="ack", nak=nak, closure=False, size=4, seg=2, ack_limit=2, nak_limit=2, variant="late", prefix=prefix))
+    worlds.append(C10Dst(mode="unack", closure=True, size=4, seg=2, check_limit=2, variant="late", prefix=[("md",), ("fd", 2, 2, 0), ("eof", 4, "NO_ERROR", 1)]))
+    eof_wait = [("put", "valid"), ("tick",), ("tick",), ("tick",), ("tick",)]
+    worlds.append(C10Src(mode="ack", closure=False, size=4, seg=2, ack_limit=2, variant="late", prefix=eof_wait))
+    worlds.append(C10Src(mode="ack", closure=False, size=4, seg=2, ack_limit=2, variant="late", prefix=eof_wait + [("ackeof",)]))
+    worlds.append(C10Src(mode="unack", closure=True, size=4, seg=2, variant="late", prefix=eof_wait))
     for mode in ("ack", "unack"):
         worlds.append(C10Src(mode=mode, closure=True, size=4, seg=2, ack_limit=2))
-    run_.bounds = {"depth": depth, "alphabet_sizes": [len(w.alphabet) for w in worlds]}
+    run_.bounds = {"depth": depth, "depth_from_late_states": depth + 3, "alphabet_sizes": [len(w.alphabet) for w in worlds]}
     for w in worlds:
         if run_.found_something():
             run_.skip(w)
             continue
-        r = explore(w, procs=NPROC, check_cycles=False, max_depth=depth, validate_stride=4999, validate_terminals=3, n_samples=1, max_states=3_000_000, max_wall=(600 if tier == 'quick' else None))
+        r = explore(w, procs=NPROC, check_cycles=False, max_depth=depth + (3 if w.cfg.get('variant') == 'late' else 0), validate_stride=4999, validate_terminals=3, n_samples=1, max_states=3_000_000, max_wall=(600 if tier == 'quick' else None))
         run_.add(r)
     run_.cap_hit = False
     run_.extra["depth_bound"] = depth
